@@ -240,7 +240,7 @@ Proof.
     cb H f cs2 H2. cb H ma cs3 H3. cb H u cs4 H4. apply cret_inv in H as [E _]. discriminate.
   - cb H r1 cs1 H1. destruct r1 as [vt idx]. apply cret_inv in H as [E ->]. injection E as <- <-.
     apply visit_variable_ok in H1 as (A & (r & N1 & T) & S).
-    destruct (wf_v _ W _ _ A) as (r' & N2 & V). assert (r' = r) by congruence. subst r'.
+    destruct (wf_v _ W _ _ (assoc_N_in _ _ _ _ A)) as (r' & N2 & V). assert (r' = r) by congruence. subst r'.
     unfold world_at. rewrite (prefix_nth _ _ _ _ _ (cs_res _ _ _ S) N1). destruct r; try discriminate; reflexivity.
   - cb H r1 cs1 H1. destruct r1 as [[] la]; try discriminate.
     + cb H r2 cs2 H2. destruct r2 as [rt ra]. cb H u cs3 H3. cb H u2 cs4 H4. apply cret_inv in H as [E _]. discriminate.
